@@ -21,8 +21,14 @@ class WouldBlockForever(BaseException):
 
 
 class World:
-    def __init__(self, history: List[Tuple[Tuple[int, ...], Optional[str], bool]]) -> None:
+    def __init__(self, history: List[Tuple[Tuple[int, ...], Optional[str], bool]], lag: bool = False) -> None:
         self.history = history
+        # lag=True models multiprocessing.Queue's feeder thread: what the manager itself puts while it is
+        # processing (the ReloadOne expansion of a reload-all) becomes visible only at the next tick; what
+        # signal handlers put during the sleep is visible when processing starts (observed with strace on
+        # the real manager: both behaviours occur)
+        self.lag = lag
+        self.in_sleep = False
         self.tick = 0  # number of sleep() calls so far
         self.trace: List[Tuple[Any, ...]] = []
         self.procs: List["FakeProcess"] = []
@@ -47,6 +53,15 @@ class World:
         die, sig, fchange = self.history[self.tick]
         self.tick += 1
         self.rec("tick")
+        if self.queue is not None:
+            self.queue.flush()
+        self.in_sleep = True
+        try:
+            self._inject(die, sig, fchange)
+        finally:
+            self.in_sleep = False
+
+    def _inject(self, die: Any, sig: Any, fchange: Any) -> None:
         for slot in die:
             p = self.current(f"worker-{slot}")
             if p is not None and p.state == "alive":
@@ -111,11 +126,19 @@ class FakeQueue:
 
     def __init__(self, maxsize: int = 0) -> None:
         self.items: List[Any] = []
+        self.pending: List[Any] = []
         if self.world.queue is None:
             self.world.queue = self
 
     def put(self, x: Any) -> None:
-        self.items.append(x)
+        if self.world.lag and not self.world.in_sleep:
+            self.pending.append(x)
+        else:
+            self.items.append(x)
+
+    def flush(self) -> None:
+        self.items.extend(self.pending)
+        self.pending = []
 
     def get(self) -> Any:
         return self.items.pop(0)
@@ -169,9 +192,9 @@ class _CurProc:
     name = "MainProcess"
 
 
-def run_history(workers: int, max_fails: int, history: List[Any]) -> Dict[str, Any]:
+def run_history(workers: int, max_fails: int, history: List[Any], lag: bool = False) -> Dict[str, Any]:
     """Run the real ProcessManager.__init__/start() against one history in the fake world."""
-    world = World(history)
+    world = World(history, lag)
     FakeProcess.world = world
     FakeQueue.world = world
     saved = {k: getattr(pm, k) for k in ("Process", "Queue", "Event", "sleep", "os", "signal", "current_process")}
@@ -299,26 +322,30 @@ def oracle_c18(out: Dict[str, Any], workers: int, max_fails: int, history: List[
                     elif ret == None and not _shutdown_in_tick(history, t + 1):  # noqa: E711
                         v.append(Violation("failure-budget-ignored", f"budget exhausted at tick {t} but start() returned success"))
                 break
-    # reload-all ticks
+    # reload-all: (i) never more than one restart of a slot within one tick; (ii) every reload-all request
+    # (SIGHUP / file change at tick t) restarts every slot at least once within ticks t..t+1 (the
+    # ReloadOne expansion may become visible one tick later, see World.lag) unless start() returned
+    per_tick: Dict[Tuple[int, str], int] = {}
+    for e in tr:
+        if e[1] == "start" and e[0] >= 1:
+            per_tick[(e[0], e[2])] = per_tick.get((e[0], e[2]), 0) + 1
+    for (t, name), n in per_tick.items():
+        if n > 1:
+            v.append(Violation("reload-all-restart-count", f"tick {t}: {name} was restarted {n} times within one tick"))
+            break
     for t, (die, sig, fchange) in enumerate(history, start=1):
         if t > out["ticks"]:
             break
         if not (sig == "HUP" or fchange):
             continue
-        if ret_tick is not None and ret_tick <= t:
+        if ret_tick is not None and ret_tick <= t + 1:
             continue
-        if sig in ("INT", "TERM"):
+        if out["ticks"] < t + 1 or not _tick_played_fully(out, t + 1):
             continue
-        if not _tick_played_fully(out, t):
-            continue
-        starts = [e for e in tr if e[0] == t and e[1] == "start"]
-        per = {}
-        for e in starts:
-            per[e[2]] = per.get(e[2], 0) + 1
         for i in range(workers):
-            n = per.get(f"worker-{i}", 0)
-            if n != 1:
-                v.append(Violation("reload-all-restart-count", f"tick {t} handled a reload-all but worker-{i} was restarted {n} times"))
+            n = per_tick.get((t, f"worker-{i}"), 0) + per_tick.get((t + 1, f"worker-{i}"), 0)
+            if n < 1:
+                v.append(Violation("reload-all-restart-count", f"reload-all requested at tick {t} but worker-{i} was not restarted in ticks {t}..{t + 1}"))
                 break
     # shutdown
     sd_tick = None
@@ -433,7 +460,8 @@ class ProcCheck(Check):
         for w, depth in cfgs:
             for fi, first in enumerate(alphabet(w)):
                 for mf in MAX_FAILS:
-                    batches.append({"mode": "enum", "workers": w, "depth": depth, "first": fi, "max_fails": mf})
+                    for lag in (False, True):
+                        batches.append({"mode": "enum", "workers": w, "depth": depth, "first": fi, "max_fails": mf, "lag": lag})
         nrand = self.quick_random if tier == "quick" else self.thorough_random
         salt = rng.randint(0, 10 ** 6)
         for i in range(nrand // 50):
@@ -456,7 +484,7 @@ class ProcCheck(Check):
             try:
                 hist = next(gen)
                 while True:
-                    out = run_history(w, mf, hist)
+                    out = run_history(w, mf, hist, spec.get("lag", False))
                     self._account(cr, out, w, mf, hist)
                     cut = None
                     if out["returned"] or out["crash"]:
@@ -464,7 +492,7 @@ class ProcCheck(Check):
                     hist = gen.send(cut)
             except StopIteration:
                 pass
-            cr.counters[f"enum_w{w}_d{depth}_batches"] += 1
+            cr.counters[f"enum_w{w}_d{depth}_{'lag' if spec.get('lag') else 'sync'}_batches"] += 1
         else:
             rng = random.Random(spec["seed"])
             for _ in range(spec["n"]):
@@ -482,9 +510,11 @@ class ProcCheck(Check):
                         hist.append(rng.choice(quiet))
                     else:
                         hist.append(rng.choice(alpha))
-                out = run_history(w, mf, hist)
+                lag = rng.random() < 0.5
+                out = run_history(w, mf, hist, lag)
                 self._account(cr, out, w, mf, hist)
                 cr.counters["random_histories"] += 1
+                cr.counters["lagged_queue_histories"] += 1 if lag else 0
         cr.nontrivial = True
         cr.sig = jhash(spec)
         return cr
@@ -500,15 +530,33 @@ class ProcCheck(Check):
             cr.counters["returned_" + str(out["ret"])] += 1
         vs = self.judge(out, w, mf, hist)
         for x in vs:
-            x.detail = {"workers": w, "max_fails": mf, "history": [list(map(_j, h)) for h in played],
+            x.detail = {"workers": w, "max_fails": mf, "queue_lag": bool(out["world"].lag), "history": [list(map(_j, h)) for h in played],
                         "trace": [list(map(_j, e)) for e in out["trace"][:200]]}
         cr.violations += vs
         if cr.trace is None and any(d for d, s, f in played) and len(out["trace"]) < 60:
             cr.trace = {"workers": w, "max_fails": mf, "history": [list(map(_j, h)) for h in played],
                         "trace": [list(map(_j, e)) for e in out["trace"]]}
 
+    def shard_epilogue(self, tier: str, shard: int, rng: random.Random) -> Dict[str, int]:
+        """Thorough tier, shard 0: the real ProcessManager with real multiprocessing workers under strace;
+        invariants on the *syscall* trace (never more live workers than slots, signals only to own
+        un-reaped workers, exactly one SIGINT per current worker on shutdown, no start afterwards) and
+        agreement of the return value with the fake world.  A strace failure only shows in the counters."""
+        if tier != "thorough" or shard != 0:
+            return {}
+        out = real_cross_check(10, rng.randint(0, 10 ** 9))
+        self._real_witnesses = getattr(real_cross_check, "witnesses", [])
+        return out
+
     def post_merge(self, merged: Dict[str, Any]) -> None:
-        pass
+        c = merged["counters"]
+        if c.get("real_problems", 0):
+            merged["violations"].setdefault("real-process-invariant", {"count": 0, "first": None})
+            slot = merged["violations"]["real-process-invariant"]
+            slot["count"] += c["real_problems"]
+            if slot["first"] is None:
+                slot["first"] = {"kind": "real-process-invariant", "msg": "invariant violated on the syscall trace of a real-process run",
+                                 "detail": None, "spec": {"mode": "real", "note": "see counters; rerun thorough tier"}, "trace": None}
 
     def extra_evidence(self, merged: Dict[str, Any]) -> Dict[str, Any]:
         c = merged["counters"]
@@ -575,3 +623,170 @@ class C18(ProcCheck):
 
     def judge(self, out: Dict[str, Any], w: int, mf: int, hist: List[Any]) -> List[Violation]:
         return oracle_c18(out, w, mf, hist)
+
+
+# ------------------------------------------------------------------------------------
+# real-process cross-check under strace (thorough tier): validates the fake world against Linux
+
+
+def _parse_strace(path: str) -> List[Tuple[int, str, Any]]:
+    import re
+
+    ev: List[Tuple[int, str, Any]] = []
+    pend: Dict[int, str] = {}
+    for ln in open(path, errors="replace"):
+        m = re.match(r"^(\d+)\s+(.*)$", ln.rstrip("\n"))
+        if not m:
+            continue
+        pid, rest = int(m.group(1)), m.group(2)
+        if rest.endswith("<unfinished ...>"):
+            pend[pid] = rest[: -len("<unfinished ...>")]
+            continue
+        r = re.match(r"^<\.\.\. (\w+) resumed>(.*)$", rest)
+        if r:
+            rest = pend.pop(pid, r.group(1) + "(") + r.group(2)
+        if rest.startswith(("clone(", "clone3(", "fork(", "vfork(")):
+            r2 = re.search(r"=\s*(\d+)\s*$", rest)
+            if r2 and "CLONE_THREAD" not in rest:
+                ev.append((pid, "clone", int(r2.group(1))))
+        elif rest.startswith("kill("):
+            r2 = re.match(r"kill\((-?\d+),\s*(\w+)\s*\)\s*=\s*(-?\d+)", rest)
+            if r2:
+                ev.append((pid, "kill", (int(r2.group(1)), r2.group(2), int(r2.group(3)))))
+        elif rest.startswith("wait4("):
+            r2 = re.search(r"=\s*(\d+)\s*$", rest)
+            if r2 and int(r2.group(1)) > 0:
+                ev.append((pid, "reaped", int(r2.group(1))))
+        elif rest.startswith("exit_group(") or rest.startswith("+++ killed") or rest.startswith("+++ exited"):
+            ev.append((pid, "dead", None))
+    return ev
+
+
+def oracle_real(ev: List[Tuple[int, str, Any]], log: List[Any], workers: int, history: List[Any]) -> List[str]:
+    problems: List[str] = []
+    if not ev:
+        return ["empty strace output"]
+    mgr = ev[0][0]
+    children: set = set()
+    live: set = set()
+    reaped: set = set()
+    shutdown_seen = False
+    handling = False  # the manager has begun to handle the shutdown (first SIGINT to a worker)
+    sigint_sent: Dict[int, int] = {}
+    driver_kills = {e[2] for e in log if e[0] == "driver_kill"}
+    returned = [e for e in log if e[0] == "return"]
+    for pid, kind, arg in ev:
+        if kind == "clone" and pid == mgr:
+            if handling and returned and returned[0][1] is None:
+                problems.append(f"process {arg} started after shutdown handling began")
+            children.add(arg)
+            live.add(arg)
+            if len(live) > workers:
+                problems.append(f"{len(live)} live worker processes > {workers} slots (pids {sorted(live)})")
+        elif kind == "dead":
+            live.discard(pid)
+        elif kind == "reaped" and pid == mgr:
+            reaped.add(arg)
+            live.discard(arg)
+        elif kind == "kill" and pid == mgr:
+            target, sig, rc = arg
+            if target == mgr:
+                if sig in ("SIGINT", "SIGTERM"):
+                    shutdown_seen = True
+                continue
+            if sig == "SIGKILL":
+                continue  # driver (fault injection / final cleanup), not the manager
+            if target not in children:
+                problems.append(f"manager signalled pid {target} ({sig}) which is not one of its workers")
+            elif target in reaped:
+                problems.append(f"manager signalled pid {target} ({sig}) after it had been reaped (pid may be reused)")
+            if sig == "SIGINT":
+                handling = True
+                sigint_sent[target] = sigint_sent.get(target, 0) + 1
+    if returned and returned[0][1] is None and shutdown_seen:
+        current = returned[0][2]
+        for p in current:
+            n = sigint_sent.get(p, 0)
+            if p in driver_kills and n <= 1:
+                continue
+            if n != 1:
+                problems.append(f"shutdown: current worker {p} received SIGINT {n} times")
+        for p in sigint_sent:
+            if p not in current:
+                problems.append(f"shutdown: SIGINT sent to {p}, not a current worker {current}")
+    return problems
+
+
+def real_cross_check(n: int, seed: int) -> Dict[str, int]:
+    import shutil
+    import subprocess
+    import tempfile
+    from concurrent.futures import ThreadPoolExecutor
+
+    out = {"real_runs": 0, "real_runs_ok": 0, "real_strace_failed": 0, "real_fake_agree": 0, "real_problems": 0}
+    if shutil.which("strace") is None:
+        out["real_strace_failed"] = n
+        return out
+    rng = random.Random(seed)
+    jobs = []
+    for i in range(n):
+        w = rng.choice([1, 2, 3])
+        mf = rng.choice(MAX_FAILS)
+        L = rng.randint(5, 9)
+        alpha = alphabet(w)
+        quiet = [a for a in alpha if a[1] not in ("INT", "TERM")]
+        hist = [rng.choice(quiet) if rng.random() < 0.6 else ((), None, False) for _ in range(L)]
+        if rng.random() < 0.6:
+            hist.append(((), rng.choice(["INT", "TERM"]), False))
+        jobs.append((w, mf, hist))
+    here = os.path.dirname(os.path.abspath(__file__))
+    from mon.runner import REPO
+
+    def one(job: Any) -> Any:
+        w, mf, hist = job
+        d = tempfile.mkdtemp(prefix="verif_pmreal_")
+        try:
+            st, lg = os.path.join(d, "st.txt"), os.path.join(d, "log.txt")
+            cmd = ["strace", "-f", "-qq", "-e", "trace=clone,clone3,fork,vfork,kill,wait4,exit_group", "-o", st,
+                   sys.executable, os.path.join(here, "pm_real.py"), REPO, str(w), str(mf),
+                   json.dumps([[list(a), b, c] for a, b, c in hist]), lg]
+            try:
+                r = subprocess.run(cmd, capture_output=True, text=True, timeout=60)
+            except subprocess.TimeoutExpired:
+                return ("failed", "timeout", job)
+            if not os.path.exists(st) or not os.path.exists(lg):
+                return ("failed", r.stderr[-300:], job)
+            log = [json.loads(x) for x in open(lg) if x.strip()]
+            ev = _parse_strace(st)
+            if not ev or not log:
+                return ("failed", "no events", job)
+            probs = oracle_real(ev, log, w, hist)
+            fake = run_history(w, mf, [(tuple(a), b, c) for a, b, c in hist])
+            real_ret = [e for e in log if e[0] == "return"]
+            agree = (bool(real_ret) == fake["returned"]) and (not real_ret or real_ret[0][1] == fake["ret"])
+            return ("ok", probs, job, agree)
+        finally:
+            shutil.rmtree(d, ignore_errors=True)
+
+    with ThreadPoolExecutor(4) as ex:
+        results = list(ex.map(one, jobs))
+    witnesses = []
+    for r in results:
+        if r[0] == "failed":
+            out["real_strace_failed"] += 1
+            continue
+        out["real_runs"] += 1
+        if not r[1]:
+            out["real_runs_ok"] += 1
+        else:
+            out["real_problems"] += 1
+            witnesses.append({"workers": r[2][0], "max_fails": r[2][1], "history": [list(map(_j, h)) for h in r[2][2]], "problems": r[1][:5]})
+        if r[3]:
+            out["real_fake_agree"] += 1
+    real_cross_check.witnesses = witnesses  # type: ignore[attr-defined]
+    return out
+
+
+import json  # noqa: E402
+import os  # noqa: E402
+import sys  # noqa: E402
